@@ -175,7 +175,46 @@ def run_shard(spec):
                 check_type(acc, sch, w, mod, midx, n, tagmap.get(n, ['typedef']))
                 if n in names:
                     check_fixed_lengths(acc, sch, w, mod, n, rng, 1)
+            if spec['kind'] != 'replay':
+                patched_variant(acc, wd, sch, w, names, tagmap, rng)
     return acc.done()
+
+
+def patched_variant(acc, wd, sch, w, names, tagmap, rng):
+    """The same schema written with a composite or typedef'd type for some integer fields, put right by 'type' rules of a
+    patch file: what prophyc computes and what the generated Python classes derive must be the layout of the patched
+    schema (a sample of the structs is compared)."""
+    import copy
+    decoys = [t for t in ('Fx8', 'TU64', 'Fx2', 'TTU64', 'Un8', 'TFx8', 'Dy4', 'En') if t in sch.by_name]
+    if not decoys:
+        return
+    last_decoy = max(i for i, d in enumerate(sch.defs) if d.name in decoys)
+    sch2 = copy.deepcopy(sch)
+    rules, touched = [], []
+    for i, d in enumerate(sch2.defs):
+        if d.kind != 'struct' or i <= last_decoy:
+            continue
+        sizers = set(m.sizer for m in d.members if m.kind == S.EXT)
+        for k, m in enumerate(d.members):
+            if m.kind == S.PLAIN and m.type in S.INTS and m.name not in sizers and rng.random() < 0.2:
+                fixed_only = [t for t in decoys if t != 'Dy4' or k == len(d.members) - 1]
+                rules.append('%s type %s %s' % (d.name, m.name, m.type))
+                m.type = rng.choice(fixed_only)
+                touched.append(d.name)
+    if not rules:
+        return
+    try:
+        mod2, nodes2 = pyrt.compile_python(sch2.to_prophy(), wd, patch='\n'.join(rules) + '\n')
+    except pyrt.CompileFailed as e:
+        # a dynamic decoy in a struct that is used where only fixed types may be: the unpatched text is not valid
+        acc.count('patched_variant_not_accepted_before_patching')
+        return
+    midx2 = model_index(nodes2)
+    acc.count('patched_schemas_compiled')
+    for n in sorted(set(touched))[:40]:
+        if n in names:
+            check_type(acc, sch, w, mod2, midx2, n, tagmap.get(n, []) + ['patched'])
+            acc.count('patched_types_checked')
 
 
 def finish(ctx, merged, specs):
